@@ -10,6 +10,7 @@ bodies, allocs = mp.load('/var/tmp/probe/seed.mir')
 ms.load_enums_from_source(['/repo/src/lexer/mod.rs', '/repo/src/ast.rs'])
 M = Machine(bodies, allocs)
 M.is_child = False
+ms.set_parallel(int(os.environ.get('PAR', '1')))
 print("load %.1fs" % (time.time() - t0))
 RES = '/var/tmp/probe/lex_results_%d.jsonl' % N
 open(RES, 'w').close()
@@ -100,6 +101,7 @@ if M.solver.check() == z3.sat:
     wit = bytes([mdl.eval(b.v, model_completion=True).as_long() for b in bs])
 with open(RES, 'a') as f:
     f.write(json.dumps({'status': status, 'detail': detail, 'out': out, 'wit': repr(wit), 'steps': M.steps, 'nloc': len(loc_obs)}) + '\n')
+M.finish()
 if M.is_child: os._exit(0)
 # root: summarize
 import collections
